@@ -14,14 +14,15 @@ from vf.gen import asm as gasm
 ID = "C08"
 LEVEL = "exploration"
 RULE = (
-    "case = (input assembly, null Pretext map, t): G-asm inputs whose scaffolds start and end with a contig and whose "
-    "last contig is longer than ceil(t)+1 bp (DESIGN 5.3), plus sub-texel scaffolds; one whole-scaffold forward piece "
+    "case = (input assembly, null Pretext map, t): G-asm inputs (40% of them with scaffolds that begin / end with a gap, as N-runs at the ends of a FASTA "
+    "record give) whose last contig is longer than ceil(t)+1 bp (DESIGN 5.3), plus sub-texel scaffolds; one whole-scaffold forward piece "
     "per scaffold with end floor(n*t), n = floor or ceil of length/t; any subset of sub-texel scaffolds absent; map "
     "unpainted (identity expected) or entirely painted (only names and order may change). Non-trivial = input with "
     ">=2 scaffolds or >=2 rows; distinct = distinct (input, map, t)."
 )
 ASSUMPTIONS = [
     "'last contig at least one texel long' is applied as length > ceil(t)+1 bp because the bait end floor(n*t) can undershoot by up to t+1 bp",
+    "scaffold-terminal gaps of the input are not expected in the output (C07 forbids terminal gaps there): contents are compared after stripping them from the input side; a scaffold made only of N is left out of the inputs",
     "output order is compared by name (the output is written in the tool's sorted order); row order inside each scaffold is compared exactly",
 ]
 
@@ -30,7 +31,12 @@ def make_case(seed, shard_index, i):
     rng = rng_for(seed, "c08", shard_index, i)
     t = gasm.pick_texel(rng)
     hapnames = rng.random() < 0.15
-    inp, labels = gasm.gen_input(rng, t, mode="fasta" if hapnames else rng.choice(["fasta", "tpf", "tpf"]), strands=rng.choice([(1,), (1, -1)]))
+    inp, labels = gasm.gen_input(rng, t, mode="fasta" if hapnames else rng.choice(["fasta", "tpf", "tpf"]), strands=rng.choice([(1,), (1, -1)]),
+                                 terminal_gaps=not hapnames and rng.random() < 0.4)
+    # scaffolds that start / end with a gap (N-runs at the ends of a FASTA record) keep everything but those
+    # terminal gaps (C07 forbids terminal gaps in outputs); a scaffold made only of N has nothing to reproduce
+    inp = [s for s in inp if any(r[0] == "F" for r in s[1])]
+    labels.discard("in:gap-only-scaffold")
     if hapnames:
         # a single-haplotype assembly whose names carry the haplotype prefix, some with more than three parts
         for k, s_ in enumerate(inp):
@@ -40,7 +46,7 @@ def make_case(seed, shard_index, i):
         labels.add("null:haplotype-prefixed-names")
     need = math.ceil(t) + 2
     for s in inp:
-        r = s[1][-1]
+        r = [x for x in s[1] if x[0] == "F"][-1]
         ln = r[3] - r[2] + 1
         if ln < need:
             r[3] = r[2] + need - 1 + rng.randint(0, 40)
@@ -132,6 +138,11 @@ def oracle(case, outcome, ctx):
     scs = out[0][1]
 
     def sig(rows):
+        rows = list(rows)
+        while rows and rows[0][0] == "G":
+            rows.pop(0)
+        while rows and rows[-1][0] == "G":
+            rows.pop()
         return [[*r[:5]] if r[0] == "F" else list(r) for r in rows]
 
     if not case["painted"]:
@@ -212,5 +223,7 @@ def gates(c, tier):
         "label:null:subtexel-multi-contig": 50,
         "label:in:both-strands": 500,
         "label:in:gapless-junction": 300,
+        "label:in:leading-gap": 300,
+        "label:in:trailing-gap": 300,
     }
     return [f"{k}>={v} (got {c.get(k, 0)})" for k, v in need.items() if c.get(k, 0) < v]
